@@ -70,6 +70,8 @@ GROUPS = {
                         "isStep := false, cancelled := {_canceled}, dead := false, act := 0, fn := 0 }} : Mesa.Devs.Ev)"),
             Rec("EventList", {"_events": ("L", ("R", "SimEvent"))}),
             Rec("SimulatorRec", {"time": "Int"}),
+            # the part of a Simulator that run_next_event / run_until read and write; `model` is only tested for None
+            Rec("SimRun", {"time": "Int", "model": ("O", "Int"), "event_list": ("R", "EventList")}),
         ],
         "fns": [
             Fn("C14", "mesa/experimental/devs/eventlist.py", "SimulationEvent.CANCELED", "CANCELED", {}, self_rec="SimEvent"),
@@ -86,6 +88,12 @@ GROUPS = {
             # simulator.py: `self.run_until(end_time)` is the effect (end_time)
             Fn("C15", "mesa/experimental/devs/simulator.py", "Simulator.run_for", "run_for", {"time_delta": "Int"},
                self_rec="SimulatorRec", effects={"self.run_until": ("T", "Int")}, effect_params={"self.run_until": ("end_time",)}),
+            # `event.execute()` is the effect "this event is executed" (the receiver is recorded); `self.event_list.pop_event()` in
+            # a try / except IndexError is a match on the result of the translated pop_event
+            Fn("C14", "mesa/experimental/devs/simulator.py", "Simulator.run_next_event", "run_next_event", {}, self_rec="SimRun",
+               state={"self.time": "Int", "self.event_list._events": ("L", ("R", "SimEvent"))},
+               effects={"event.execute": ("T", ("R", "SimEvent"))}, effect_self=("event.execute",),
+               obj_calls={"self.event_list.pop_event": ("pop_event", "EventList", ("self.event_list._events",))}, fuel=True),
         ],
     },
     "Steps": {
@@ -118,13 +126,14 @@ REGISTRY = {
     "C14": {
         "groups": ["Devs"],
         "functions": ["SimulationEvent.CANCELED", "SimulationEvent.__lt__", "EventList.add_event", "EventList.pop_event",
-                      "EventList.__len__", "EventList.is_empty", "EventList.peak_ahead"],
+                      "EventList.__len__", "EventList.is_empty", "EventList.peak_ahead", "Simulator.run_next_event"],
         "lean_modules": ["MesaModel.Proofs.XlateDevs"],
         "theorems": ["Mesa.Devs." + t for t in (
             "C14_gen_CANCELED_eq_model", "C14_gen_lt_eq_model", "C14_gen_add_event_eq_model", "C14_gen_pop_event_eq_model",
             "C14_gen_pop_event_fuel_adequate", "C14_pop_event_index_iff_generated",
             "C14_gen_len_eq_model", "C14_gen_is_empty_eq_model", "C14_add_event_generated", "C14_pop_event_generated",
-            "C14_gen_peak_ahead_eq_model")],
+            "C14_gen_peak_ahead_eq_model",
+            "C14_gen_run_next_event_eq_model", "C14_gen_run_next_event_guard", "C14_run_next_event_generated")],
     },
     "C15": {
         "groups": ["Devs"],
